@@ -47,7 +47,7 @@ THEOREMS = {
     "C08": _t("C08", "FlooVerif.C08U.portElem_depth", "FlooVerif.C08U.kept_length", "FlooVerif.C08U.portElem_single"),
     "C10": _t("C10", "FlooVerif.C10.no_output_on_error", "FlooVerif.C10.rejected_of_gen_error", "FlooVerif.C10.validate_ok",
               "FlooVerif.C10.reject_invalid_range", "FlooVerif.C10.reject_empty_range", "FlooVerif.C10.reject_contradictory_range",
-              "FlooVerif.C10.reject_sbr_without_range", "FlooVerif.C10.reject_duplicate_endpoint_names",
+              "FlooVerif.C10.reject_sbr_without_range", "FlooVerif.C10.reject_tableless_id_without_offset", "FlooVerif.C10.reject_duplicate_endpoint_names",
               "FlooVerif.C10.reject_duplicate_router_names", "FlooVerif.C10.reject_unidirectional",
               "FlooVerif.C10.reject_addr_width_mismatch") +
            _t("C01U", "FlooVerif.C01U.overlap_rejected"),
